@@ -800,7 +800,7 @@ static int c19_suspend_resume(Buf *b) {
     tr("resume get=%u/%u/%u set=%u/%u/%u maininit=%u storage=%d eqperm=%d eqvol=%d eqsave=%d lens=%u/%u/%u", g[0], g[1], g[2], sres[0], sres[1], sres[2], mi,
        with_storage, eq[0], eq[1], eq[2], len[0], len[1], len[2]);
     /* the blobs RE-TAKEN after the resume must be accepted as well (second resume from them) */
-    if (mi == TPM_SUCCESS && ar[0] == TPM_SUCCESS && ar[1] == TPM_SUCCESS && ar[2] == TPM_SUCCESS && chance(35)) {
+    if (mi == TPM_SUCCESS && ar[0] == TPM_SUCCESS && ar[1] == TPM_SUCCESS && ar[2] == TPM_SUCCESS && chance(25)) {
         TPM_RESULT s2[3], mi2 = 0xFFFF;
         TPMLIB_Terminate();
         for (int k = 0; k < 3; k++) s2[k] = TPMLIB_SetState(c19_ty[k], after[k], alen[k]);
@@ -1051,7 +1051,7 @@ static void c19_history(int h, void *arg) {
     if (h % 10 == 2 || h % 10 == 7) c19_install_owner(&b);      /* two RSA key generations */
     for (int i = 0; i < nops; i++) {
         int k = rnd(100);
-        if (k < 5) { if (!c19_holes(&b)) break; }
+        if (k < 4) { if (!c19_holes(&b)) break; }
         else if (k < 78) c19_random_cmd(&b);
         else if (k < 84) { if (!c19_suspend_resume(&b)) break; }
         else if (k < 88) { if (!c19_powercut(&b)) break; }
